@@ -19,6 +19,8 @@ import (
 	commitmenttypesv2 "github.com/cosmos/ibc-go/v11/modules/core/23-commitment/types/v2"
 	host "github.com/cosmos/ibc-go/v11/modules/core/24-host"
 	solomachine "github.com/cosmos/ibc-go/v11/modules/light-clients/06-solomachine"
+
+	"verif/harness/lib"
 )
 
 // SigTerm is the abstract signature of SoloMachine.tla: what was signed, by which key, in which form.
@@ -104,7 +106,7 @@ func (w *SoloWorld) key(id int) soloKey {
 	var k soloKey
 	pubs := make([]cryptotypes.PubKey, n)
 	for j := 0; j < n; j++ {
-		p := secp256k1.GenPrivKeyFromSecret([]byte(fmt.Sprintf("verif-solo-%s-%d-%d", w.kind, id, j)))
+		p := secp256k1.GenPrivKeyFromSecret([]byte(fmt.Sprintf("verif-solo-%s-%s-%d-%d", lib.EnvStr("VERIF_SEED", "1"), w.kind, id, j)))
 		k.privs = append(k.privs, p)
 		pubs[j] = p.PubKey()
 	}
